@@ -226,14 +226,6 @@ theorem C18_range_model_verdict_ok (blocks : List Block) (path ae : Bytes) (sibl
     rw [hp]
     simp [rangeVerdict, observe, h1, h3, h5, hcl, hoff, hae, h4, hne]
 
-/-- Enabling gzip does not change the Content-Type a client sees for a handler that sets none:
-for every sequence of Writes and Flushes the gzip writer sniffs it from the same bytes net/http
-would sniff it from (net/http's buffering and 512-byte rule: trusted as documented; that
-http.DetectContentType is applied to these bytes on both sides is checked by c18.sniff). -/
-theorem C18_content_type_sniffed_from_same_bytes (evs : List Ev) : gzSniffInput evs = netSniffInput evs := by
-  unfold gzSniffInput netSniffInput sniffInput
-  exact (collect_same [] evs).symm
-
 /-- The tables the decision depends on are the ones in the source (regenerated on every run):
 the static encodings and their order, the Content-Encoding values the skip filter lets through
 (so every static coding is skipped), the default extension list. -/
@@ -276,11 +268,6 @@ example :
     gzipRun [{ exts := [[46, 116, 120, 116]], nots := [], minLen := 0 }] txt (Coding.zstd.name ++ [44, 32] ++ gz)
       (staticInner [.zstd] (Coding.zstd.name ++ [44, 32] ++ gz) [7, 7] 20) =
       plainRun (staticInner [.zstd] (Coding.zstd.name ++ [44, 32] ++ gz) [7, 7] 20) := by decide
-
-/-- test: "<ht" then "ml>…" — the case where sniffing from the first Write alone would go wrong -/
-example : gzSniffInput [.write [60, 104, 116], .write [109, 108, 62]] = [60, 104, 116, 109, 108, 62] ∧
-    gzSniffInput [.write [60, 104, 116], .flush, .write [109, 108, 62]] = [60, 104, 116] ∧
-    gzSniffInput [.flush, .write [1]] = [] := by decide
 
 /-- test: `gzip;q=0` is not an offer, `gzip;q=0.5` and `x-gzip` are -/
 example : offersGzip (gz ++ [59, 113, 61, 48]) = false ∧ offersGzip (gz ++ [59, 113, 61, 48, 46, 53]) = true ∧
